@@ -167,7 +167,10 @@ let handle (line:string) : string =
       let ch = eq_chartb c in
       let g = ch && eq_guard_run (bits vflags 3) c (nat_of_int (int_of_string fuel)) l_pristine x_init
                       (List.map (fun e -> bytes_of_hex (atom e)) evs) in
-      b2s ch ^ b2s g
+      let es = List.map (fun e -> bytes_of_hex (atom e)) evs in
+      let chh = eq_chartb_hist c in
+      let gh = chh && eq_guard_run_hist (bits vflags 3) c (nat_of_int (int_of_string fuel)) l_pristine x_init es in
+      b2s ch ^ b2s g ^ b2s chh ^ b2s gh
   | Atom "runguard" :: Atom late :: Atom fuel :: tree :: L evs :: _ ->
       (* C01: hypotheses of run_conforms: static conditions, the dynamic guard along the large model's run, run complete *)
       let c = flatten (late = "1") (tree_of tree) in
